@@ -96,6 +96,23 @@ CLAIMED = {
         "Member verdicts are pane's own (checked by C01); the reference index is compared only where specified.",
         "DESIGN.md section 5, C11",
     ),
+    'C12': (
+        "Hypothesis generation of variant sets x three layouts x tag/body/shape mutations; reference implementation of docs/using/tagged.md as oracle, metamorphic body-error oracle, round-trip of the layout; enumeration of duplicate-tag definitions",
+        "The variant is decided by the tag alone (instance of the variant whose declared tag equals the data's tag, even when other variants accept the "
+        "body), a body error equals the selected variant's own tree, unknown/absent/ill-kinded tags are ConvertErrors naming the tag, duplicate tag values "
+        "are refused with TypeError when the converter is built, and into_data writes exactly the layout from_data reads. Known finding D21 is reported as KNOWN-FINDING.",
+        "Trusts the tagged-union reference in pv/cg.py (TaggedNode). Tags equal to a declared tag but of another type are unspecified.",
+        "DESIGN.md section 5, C12",
+    ),
+    'C13': (
+        "Hypothesis generation from a condition-expression grammar with boundary-directed values; independent predicate evaluator as oracle",
+        "Condition expressions (stock conditions with generated thresholds, & | ~, Condition.all/any, 1-3 conditions per annotation, user and raising "
+        "predicates, shape/broadcastable) over scalar, sized, array and nested inner types, with values at, next to and away from every threshold: "
+        "accept iff the inner type accepts and the independent evaluator holds; the value is returned unchanged; a raising predicate yields ConvertError "
+        "with a cause; into_data ignores conditions.",
+        "Trusts the evaluator in pv/tg.py (cond_eval, 6-line broadcasting rule) and Python comparison semantics.",
+        "DESIGN.md section 5, C13",
+    ),
     'C14': (
         "Hypothesis generation of class definitions x supplied-field subsets x construction paths; class-model oracle (reference field images, default/factory freshness, set-field record, hook count)",
         "Generated dataclass definitions are constructed through six paths (keyword, positional, mixed, mapping data, sequence data, make_unchecked); "
